@@ -122,17 +122,16 @@ def classesOf (z : Zone) (o : LName) (q : Query) : List String :=
   (if nodataAsNx z o q.name t then ["nodata-as-nxdomain"] else []) ++
   (if per wildcardQname then ["wildcard-qname-not-expanded"] else []) ++
   (if NestedCut z o q then ["nested-cut"] else []) ++
-  (if referralAA z o q then ["referral-aa"] else []) ++
-  (if nsAnyBelowCut z o q then ["ns-any-below-cut"] else []) ++
-  (if soaBelowCut z o q then ["soa-below-cut"] else []) ++
   (if cnameIntoCut z o q then ["cname-into-cut"] else []) ++
   (if anyNotAtOwner z q then ["any-not-at-owner"] else [])
 
-/-- the statement of `C10.impl_eq_spec_partial` evaluated on the case -/
+/-- the statements of `C10.impl_eq_spec_partial` and `C10.aa_correct_partial` evaluated on the case -/
 def thmHolds (z : Zone) (o : LName) (q : Query) : Bool :=
-  let hyps := zoneWF z o && !WildcardGap z o q && !NestedCut z o q && !nsAnyBelowCut z o q &&
-    !soaBelowCut z o q && !cnameIntoCut z o q && !anyNotAtOwner z q
-  !hyps || conformsModAA (answerImpl z o q) (answerSpec MAX_CNAME_DEPTH z o q)
+  let hyps := zoneWF z o && !WildcardGap z o q && !NestedCut z o q &&
+    !cnameIntoCut z o q && !anyNotAtOwner z q
+  let hypsAA := zoneWF z o && !wildcardGapAt z o q.name (effType z q) && !anyNotAtOwner z q
+  (!hyps || conforms (answerImpl z o q) (answerSpec MAX_CNAME_DEPTH z o q)) &&
+  (!hypsAA || (answerImpl z o q).aa == (answerSpec MAX_CNAME_DEPTH z o q).aa)
 
 /-- classes of `Model/AuthZoneSignedDev.lean` (DO=1 on an NSEC-signed zone) -/
 def signedClassesOf (z : Zone) (o : LName) (q : Query) : List String :=
